@@ -8,6 +8,7 @@ import Driver.BridgeStore
 import Driver.L1InfoStore
 import Driver.Downloader
 import Driver.LastGER
+import Driver.Oracle
 open Driver Aggkit
 
 def keccakStep (_ : Unit) (ws : List String) : Unit × String :=
@@ -29,5 +30,6 @@ def main (args : List String) : IO UInt32 := do
   | ["l1infostore"] => loop inp Driver.L1InfoStore.step (Aggkit.L1InfoStore.LP.init Driver.Tree.H Driver.Tree.N); return 0
   | ["downloader"] => loop inp Driver.Downloader.step (); return 0
   | ["gersync"] => loop inp Driver.LastGER.step {}; return 0
+  | ["oracle"] => loop inp Driver.Oracle.step {}; return 0
   | ["tree"] => loop inp Driver.Tree.step (Aggkit.TM.init Driver.Tree.H Driver.Tree.N); return 0
   | _ => IO.eprintln "usage: aggkit_driver <scenario>"; return 2
